@@ -43,15 +43,21 @@ def c05(chk):
         jitter = rng.choice([0, 0, delay // 2, delay * 2])
         stagger = rng.choice([0, 0, 0, 1, delay // 1000 + 1, 2 * delay // 1000 + 1])
         k0, k1 = rng.randrange(1, 10**6), rng.randrange(1, 10**6)
-        cmds = ["seed=%d delay=%d jitter=%d" % (rng.randrange(1 << 30), delay, jitter),
+        # the last few runs use real sockets and the real clock with the second dial arriving 0.6-0.9 s after the
+        # first (anything in the code that measures real time between the two dials only shows there)
+        real = i >= n - (4 if quick else 16)
+        if real:
+            stagger = rng.choice([600, 900])
+        first, second = ("bg a connect 0 1", "bg b connect 1 0") if rng.random() < 0.5 or not real else ("bg b connect 1 0", "bg a connect 0 1")
+        cmds = ["seed=%d real=1" % rng.randrange(1 << 30) if real else "seed=%d delay=%d jitter=%d" % (rng.randrange(1 << 30), delay, jitter),
                 "node 0 key=%d" % k0, "node 1 key=%d" % k1, "idlt 0 1",
-                "bg a connect 0 1"]
+                first]
         if stagger:
             cmds.append("sleep %d" % stagger)
-        cmds += ["bg b connect 1 0", "join a", "join b", "sleep 3000",
+        cmds += [second, "join a", "join b", "sleep %d" % (1200 if real else 3000),
                  "peers 0", "peers 1", "events 0", "events 1",
                  "rpc 0 1 id=x size=100", "rpc 1 0 id=y size=100",
-                 "sleep 5000", "events 0", "events 1", "peers 0", "peers 1", "ranks", "trace active"]
+                 "sleep %d" % (800 if real else 5000), "events 0", "events 1", "peers 0", "peers 1", "ranks", "trace active"]
         scen.append("simnet " + " ; ".join(cmds))
     outs, parsed = run_scenarios(chk, scen, "fabric:mutual-dial")
     # both sides' recorded active-peer histories (with the pre-state every operation saw) replayed on ActivePeers.v
@@ -396,6 +402,12 @@ def gen_netscript(rng, nn, length, w):
                 ops.append(("Q",))
             i += 3
             continue
+        if rng.random() < w.get("selfdial", 0.0):
+            # a node dials its own address (with or without naming itself): outside NetModel.v, judged by the C03 monitors only
+            a = rng.randrange(1, nn + 1)
+            ops.append(("DS", a, rng.random() < 0.5))
+            i += 1
+            continue
         if r < w.get("fault", 0.0) + 0.5:
             a, b = pair()
             if rng.random() < w.get("pin", 0.1):
@@ -444,6 +456,10 @@ def net_scenario(rng, nodes, ops, default_idle=False):
             pos_res = len(cmds)
             cmds.append("connect %d %d%s" % (op[1], op[2], " pin=%d" % op[3] if len(op) > 3 else ""))
             cmds.append("sleep 300")
+        elif k == "DS":
+            pos_res = len(cmds)
+            cmds.append("connect %d %d%s" % (op[1], op[1], " pin=%d" % op[1] if op[2] else ""))
+            cmds.append("sleep 1500")      # both ends of a connection to oneself meet in one active-peer set and one of them closes it
         elif k == "X":
             cmds += ["disconnect %d %d" % (op[1], op[2]), "sleep 300"]
         elif k == "R":
@@ -480,6 +496,9 @@ def model_case(nodes, ops):
     spec = ";".join("%d:%d:%s:%s" % (i, n, "-" if a is None else a, "-" if l is None else l) for i, (n, a, l) in sorted(nodes.items()))
     toks = []
     for op in ops:
+        if op[0] == "DS":
+            toks.append("K %d %d none" % (op[1], op[1]))     # not modelled: a no-op keeps the op lists aligned
+            continue
         toks.append(" ".join(str(x) for x in op))
     return "netmodel %s | %s" % (spec, " / ".join(toks))
 
@@ -567,6 +586,12 @@ def run_netscripts(chk, n, nn_choices, length, weights, tag, extra_monitor=None,
             mdial, mlist = mr.split(" L=")
             mlists = dict(x.split(":") for x in mlist.split(";"))
             listings = {i: res[ppos - 1 + (i - 1)] for i in range(1, nn + 1)}
+            if op[0] == "DS":
+                r = res[pos_res - 1]
+                chk.count("self-dial:" + r.split()[0])
+                if r.startswith("ok") and (r.split()[1] != str(op[1]) or "listed=1" not in r):
+                    chk.monitor_fail("node %d dialed its own address: the call returned %s, but a successful dial names the party reached and that party is in the connected set when it returns" % (op[1], r[:60]), dict(case=sc, op=str(op)))
+                    ok = False
             if op[0] == "D":
                 r = res[pos_res - 1]
                 got = "err" if r.startswith("err") else ("ok" + r.split()[1] if r.startswith("ok") else r)
@@ -683,6 +708,9 @@ ADV_VARIANTS = [
     ("chain-own-then-V", "k=7 names=nN chain=V", "self"),
     ("chain-V-then-own", "k=7 names=nN chain=V chainfirst=1", "none"),
     ("chain-own-then-V-then-other", "k=7 names=nN chain=V,9", "self"),
+    # the victim's public key, wrapped like a SubjectPublicKeyInfo, planted inside the adversary's own valid certificate
+    ("decoy-key-of-V-in-serial", "k=7 names=nN decoy=V", "self"),
+    ("decoy-key-of-V-in-extension", "k=7 names=nN decoyext=V", "self"),
 ]
 
 
@@ -696,7 +724,7 @@ def adversary_scenarios(chk, n, tag):
         label, spec, mode = ADV_VARIANTS[i % len(ADV_VARIANTS)]
         V = rng.randrange(100, 10**6)
         name = rng.choice([10, 20])
-        spec = spec.replace("k=V", "k=%d" % V).replace("chain=V", "chain=%d" % V).replace("nN", "n%d" % name).replace("nX", "n%d" % (30 if name != 30 else 10))
+        spec = spec.replace("k=V", "k=%d" % V).replace("chain=V", "chain=%d" % V).replace("decoy=V", "decoy=%d" % V).replace("decoyext=V", "decoyext=%d" % V).replace("nN", "n%d" % name).replace("nX", "n%d" % (30 if name != 30 else 10))
         cmds = ["seed=%d delay=%d" % (rng.randrange(1 << 30), rng.choice([500, 2000])),
                 "node 1 key=%d name=n%d" % (V, name), "node 2 key=%d name=n%d" % (V + 1, name),
                 "adv 8 " + spec,
